@@ -48,7 +48,7 @@ func acrhHandler(names []string) http.Handler {
 
 func acrhApproved(h http.Handler, lines []string) (approved bool, reflected bool) {
 	w := newRec()
-	h.ServeHTTP(w, newReq("OPTIONS", http.Header{hOrigin: {"https://example.com"}, hACRM: {"GET"}, hACRH: lines}))
+	h.ServeHTTP(w, newReq("OPTIONS", http.Header{hOrigin: {"https://example.com"}, hACRM: {"GET"}, hACRH: append([]string(nil), lines...)}))
 	approved = w.status >= 200 && w.status < 300
 	got := w.final()["Access-Control-Allow-Headers"]
 	reflected = len(got) == len(lines)
